@@ -376,6 +376,9 @@ def evaluate(ctx, cases, label, n_u=3, exhaustive_max=10, exhaustive_cap=None, m
             viol("edge-twice", f"plaquette {inodup.index('0')} uses an edge twice", {})
         closed_impl = not np.any(lat.edges.adjacent_plaquettes == INVALID)
         cover = o["icover"][0] == "1"
+        if o["icover"][0] == "skip":
+            cover = closed_impl
+            res.extra["darts_cover_not_evaluated(E>400)"] = res.extra.get("darts_cover_not_evaluated(E>400)", 0) + 1
         if cover:
             res.extra["closed_lattices"] = res.extra.get("closed_lattices", 0) + 1
         if cover != closed_impl:
